@@ -85,7 +85,7 @@ def run(tier):
     progs = c01.derive(ctx, "CGram fuel<=2", 2)
     progs = [e["toks"] for e in progs]
     sample = rnd.sample(progs, 700 if tier == "quick" else 8000)
-    cases, names, sk = _cases_for(sample, rnd, ["lines", "markers", "sameline"])
+    cases, names, sk = _cases_for(sample, rnd, ["random", "markers", "sameline"])
     check_cases(ctx, cases, names, "grammar machine x layouts")
     sim = c01.derive(ctx, "CGram simulated", 12, simulate=300 if tier == "quick" else 4000, depth=400, seed=ctx.seed + 11)
     cases, names, sk2 = _cases_for([e["toks"] for e in sim], rnd, ["markers"])
@@ -99,8 +99,9 @@ def run(tier):
                 cnames.append(txt)
     check_cases(ctx, ccases, cnames, "corpus")
     ctx.note("skipped_outside_matcher_domain_or_rejected", sk + sk2)
-    # error locations
+    # error locations (and, on a sample of valid laid-out programs, the token positions themselves against the raw text)
     texts = [t for t in injections(rnd, progs, 1500 if tier == "quick" else 20000) if ptrace.ascii_ok(t)]
+    texts += [layout.render(t, "random", rnd) for t in rnd.sample(progs, 200 if tier == "quick" else 3000)]
     traces = []
     for t in texts:
         tr, ast, exc = ptrace.record(t, "main.c")
